@@ -701,6 +701,29 @@ func (c *cenv) call(n *ast.CallExpr) Val {
 		case "noslash":
 			v := c.eval(n.Args[0])
 			return termVal(boolT, sBool, e.noslash(e.term(c.st(), v)))
+		case "pbdecode":
+			// pbdecode(bz, T): the value the protobuf codec decodes from bz into a fresh (zero) T
+			bz := c.eval(n.Args[0])
+			t := c.resolveType(n.Args[1])
+			if t == nil {
+				return c.errf("pbdecode: unknown type")
+			}
+			e.trusted["protobuf codec: Marshal is a deterministic function, Unmarshal(Marshal(x)) == x"]++
+			srt := e.sortOfT(t)
+			return e.wrapTerm(t, e.D.uf("spec_pbunmarshal_"+ifaceShortName(t), []string{sStr}, srt, e.term(c.st(), bz)))
+		case "hasprefix":
+			// hasprefix(a, b): byte string a starts with b; decided by the segment algebra where it can be
+			a, b := c.eval(n.Args[0]), c.eval(n.Args[1])
+			at, bt := e.term(c.st(), a), e.term(c.st(), b)
+			e.D.declFun("hasprefix", "(declare-fun hasprefix (Str Str) Bool)")
+			raw := tApp("hasprefix", at, bt)
+			sa, sb := e.byteSegs(c.st(), a), e.byteSegs(c.st(), b)
+			if len(sa) > 0 && len(sb) > 0 {
+				if f, hyps, ok := e.segsHasPrefixH(sa, sb); ok {
+					return termVal(boolT, sBool, tIte(tAnd(hyps...), f, raw))
+				}
+			}
+			return termVal(boolT, sBool, raw)
 		case "isnil":
 			v := c.eval(n.Args[0])
 			z := c.coerce(Val{K: kTerm, Sort: "untyped-nil", T: "nil"}, v.Typ)
@@ -741,6 +764,15 @@ func (c *cenv) call(n *ast.CallExpr) Val {
 			// BV (unsigned) to mathematical Int
 			v := c.eval(n.Args[0])
 			return Val{K: kTerm, Sort: sInt, T: tApp("bv2nat", e.term(c.st(), v)), Typ: mathIntType()}
+		case "sint":
+			// BV (signed, e.g. a time.Duration) to mathematical Int
+			v := c.eval(n.Args[0])
+			t := e.term(c.st(), v)
+			return Val{K: kTerm, Sort: sInt, T: fmt.Sprintf("(ite (bvslt %s (_ bv0 64)) (- (bv2nat (bvneg %s))) (bv2nat %s))", t, t, t), Typ: mathIntType()}
+		case "ns":
+			// an instant as its mathematical number of nanoseconds
+			v := c.eval(n.Args[0])
+			return Val{K: kTerm, Sort: sInt, T: e.term(c.st(), v), Typ: mathIntType()}
 		case "callpre", "callpost":
 			// callpre("Callee", comp) / callpost("Callee", comp): value of a world component right before / after
 			// the last contracted call of Callee on this path (current value if no such call happened).
@@ -903,6 +935,17 @@ func (c *cenv) call(n *ast.CallExpr) Val {
 			var k int
 			fmt.Sscanf(nv.T, "%d", &k)
 			for _, o := range c.post.retInLoops {
+				if o == k {
+					return termVal(boolT, sBool, "true")
+				}
+			}
+			return termVal(boolT, sBool, "false")
+		case "loopCompleted":
+			// loopCompleted(N): this path left loop N through the loop condition (not by return or break): every iteration ran
+			nv := c.eval(n.Args[0])
+			var k int
+			fmt.Sscanf(nv.T, "%d", &k)
+			for _, o := range c.post.loopsDone {
 				if o == k {
 					return termVal(boolT, sBool, "true")
 				}
